@@ -301,7 +301,8 @@ fn catalogue_values() -> &'static Vec<(&'static str, simplesl::variable::Variabl
     V.get_or_init(|| {
         let mut out: Vec<(&'static str, simplesl::variable::Variable, Ty)> = vec![];
         // (beyond the catalogue: values whose types differ from catalogue types in a component only)
-        const MORE: [&str; 24] = [
+        const MORE: [&str; 34] = [
+            "[1, 2]", "[\"s\", \"t\"]", "[2.5]", "(1, true)", "(\"s\", true)", "(2.5, false)", "[[1], [2]]", "[[\"s\"]]", "(1, \"s\")", "(\"s\", 1)",
             "[[], [1]]", "[[1], [1, \"s\"]]", "[struct{a := 1, b := 2}, struct{a := 3}]", "[(1, []), (2, [\"s\"])]", "[[1, 2], [2.5]]", "[mut 1, mut 2.5]",
             "struct{a := \"s\"}", "struct{a := 2.5}", "struct{a := 1, b := 2}", "struct{b := 1}", "struct{a := [1]}", "struct{a := 1, c := 2}", "struct{b := 1, c := 2, d := 3}", "[1, \"s\"]", "[2.5, true]", "[1, 2.5]", "[[1], [\"s\"]]",
             "(1, \"s\")", "(1, 2, 3)", "(2.5, 1)", "mut int|string 1", "mut float|bool true", "(x: int) -> int { return x; }", "(x: string) -> int { return 1; }",
@@ -326,7 +327,7 @@ fn catalogue_values() -> &'static Vec<(&'static str, simplesl::variable::Variabl
 /// the language's own membership test (if-set, type arm of match) of a value against a type T answers
 /// what the relation answers for the value's type, whatever the declared type S of the tested
 /// expression is and whatever the same test answered for the values before it
-fn check_membership(case: &Json, stats: &mut Stats) -> Verdict {
+pub(crate) fn check_membership(case: &Json, stats: &mut Stats) -> Verdict {
     let (ts, tt) = (case["s"].as_str().unwrap_or("any"), case["t"].as_str().unwrap_or("any"));
     let form = case["form"].as_u64().unwrap_or(0);
     let texts: Vec<&str> = case["values"].as_array().map(|a| a.iter().filter_map(|v| v.as_str()).collect()).unwrap_or_default();
@@ -484,12 +485,15 @@ fn cell_of(t: &str) -> String {
     if top_union && !t.contains("->") { format!("mut ({t})") } else { format!("mut {t}") }
 }
 
-fn membership_cases() -> Vec<Json> {
+pub(crate) fn membership_cases() -> Vec<Json> {
     use crate::genr::matrix::CATALOGUE;
     let extra = ["[[string]]", "[[int]]", "[[]]", "[struct{a: int, b: int}]", "[struct{a: int}]", "[[int]|[float]]", "[(int, [])]", "[any]|string", "struct{a: int}|int", "struct{}", "struct{a: int}", "struct{b: int}", "struct{a: float}", "struct{a: int, b: int}", "()->!", "()->int", "()->float", "(int)->int", "[any]", "[!]", "(any, any)", "(int, int)", "(int, int, int)", "mut any", "!"];
-    let tested: Vec<&str> = CATALOGUE.iter().map(|o| o.ty).chain(extra).collect();
+    // compound types whose components are partially overlapping unions (a value in the overlap passes
+    // the test although neither type lies below the other)
+    let overlap = ["[int|string]", "[int|float]", "(int|string, bool)", "(int|float, bool)", "struct{a: int|string}", "struct{a: int|float}", "[[int|string]]", "[[int|float]]", "(int|string, int|string)", "(int|float, int|string)"];
+    let tested: Vec<&str> = CATALOGUE.iter().map(|o| o.ty).chain(extra).chain(overlap).collect();
     let mut cases = vec![];
-    let declared: Vec<&str> = CATALOGUE.iter().map(|o| o.ty).chain(["struct{}", "struct{a: int}", "()->any", "[any]", "(any, any)"]).collect();
+    let declared: Vec<&str> = CATALOGUE.iter().map(|o| o.ty).chain(["struct{}", "struct{a: int}", "()->any", "[any]", "(any, any)"]).chain(overlap).collect();
     fn shape(t: &Ty) -> u8 {
         match t {
             Ty::Struct(_) => 1,
@@ -595,6 +599,40 @@ pub fn run(session: &Session) -> i32 {
                 cases.push(json!({"a": a, "b": b, "c": c, "how": "basis"}));
             }
         }
+    }
+    // a compound of unions against the union of the compounds (a product of sums is wider than the sum
+    // of the products): tuples, structs, arrays, cells, function results and parameters over every pair
+    // of scalars, with the mixed compound as the value in between
+    {
+        let scalars = ["int", "float", "string", "bool", "()", "[int]"];
+        let mut n = 0;
+        for (i, x) in scalars.iter().enumerate() {
+            for y in scalars.iter().skip(i + 1) {
+                let families: Vec<(String, String, Vec<String>)> = vec![
+                    (format!("({x}|{y}, {x}|{y})"), format!("({x}, {x})|({y}, {y})"), vec![format!("({x}, {y})"), format!("({y}, {x})"), format!("({x}, {x})")]),
+                    (format!("({x}|{y}, {x}|{y}, int)"), format!("({x}, {x}, int)|({y}, {y}, int)"), vec![format!("({x}, {y}, int)")]),
+                    (format!("(int, {x}|{y}, {x}|{y})"), format!("(int, {x}, {y})|(int, {y}, {x})"), vec![format!("(int, {x}, {x})")]),
+                    (format!("struct{{a: {x}|{y}, b: {x}|{y}}}"), format!("struct{{a: {x}, b: {x}}}|struct{{a: {y}, b: {y}}}"), vec![format!("struct{{a: {x}, b: {y}}}")]),
+                    (format!("[{x}|{y}]"), format!("[{x}]|[{y}]"), vec![format!("[{x}]"), format!("[{y}|{x}]")]),
+                    (format!("[({x}|{y}, {x}|{y})]"), format!("[({x}, {x})|({y}, {y})]"), vec![format!("[({x}, {y})]")]),
+                    (format!("mut ({x}|{y})"), format!("mut {x}|mut {y}"), vec![format!("mut {x}")]),
+                    (format!("()->({x}|{y}, {x}|{y})"), format!("()->(({x}, {x})|({y}, {y}))"), vec![format!("()->({x}, {y})")]),
+                    (format!("(({x}, {x})|({y}, {y}))->int"), format!("(({x}|{y}, {x}|{y}))->int"), vec![format!("(({x}, {y}))->int")]),
+                ];
+                for (wide, narrow, between) in families {
+                    for (a, b, c) in [(wide.clone(), narrow.clone(), "any".to_string()), (narrow.clone(), wide.clone(), "any".to_string())] {
+                        cases.push(json!({"a": a, "b": b, "c": c, "how": "product of sums"}));
+                        n += 1;
+                    }
+                    for m in between {
+                        cases.push(json!({"a": m, "b": wide, "c": narrow, "how": "product of sums"}));
+                        cases.push(json!({"a": m, "b": narrow, "c": wide, "how": "product of sums"}));
+                        n += 2;
+                    }
+                }
+            }
+        }
+        session.set_extra("product_of_sums_triples", json!(n));
     }
     session.set_extra("basis_triples", json!(cases.len()));
     let membership = membership_cases();
